@@ -90,6 +90,8 @@ def check_views(P: Any, what: str) -> Optional[tuple[str, str]]:
             rawnow = list(getattr(P, raw))
             got = list(getattr(P, name))
             ln = len(getattr(P, name))
+        except ArithmeticError:
+            continue  # a value view over an expression that divides by zero: evaluating it legitimately raises
         except Exception as e:  # noqa: BLE001
             return (f'view-read-raised:{type(P).__name__}.{name}:{type(e).__name__}', f'reading {name} after {what} raised {e!r}')
         exp = [convert(name, x) for x in rawnow if visible(vis, x)]
@@ -111,6 +113,14 @@ def check_views(P: Any, what: str) -> Optional[tuple[str, str]]:
                 keys = list(w.keys())
                 if keys != [x.key for x in items]:
                     return (f'map-keys:{type(P).__name__}.{name}', f'after {what}: keys() = {keys} but items have {[x.key for x in items]}')
+                if list(reversed(w.keys())) != keys[::-1] or len(w.keys()) != len(keys):
+                    return (f'map-keys-reversed:{type(P).__name__}.{name}', f'after {what}: reversed(keys()) / len(keys()) disagree with keys() = {keys}')
+                expv = items if name == 'raw_meta' else [x.value for x in items]
+                vals, its = list(w.values()), list(w.items())
+                if not same_list(vals, expv) or not same_list(list(reversed(w.values())), expv[::-1]):
+                    return (f'map-values:{type(P).__name__}.{name}', f'after {what}: values() = {_show(vals)} but the items give {_show(expv)}')
+                if [k for k, _ in its] != keys or not same_list([v for _, v in its], expv) or [k for k, _ in reversed(w.items())] != keys[::-1]:
+                    return (f'map-items:{type(P).__name__}.{name}', f'after {what}: items() = {its!r} disagrees with keys() / values()')
                 for x in items:
                     first = next(y for y in items if y.key == x.key)
                     got1 = w[x.key]
@@ -211,6 +221,8 @@ def run_case(case: dict) -> Result:
             exp = a.ref['expected']
             try:
                 got = list(getattr(P, a.prop))
+            except ArithmeticError:
+                break  # an expression dividing by zero among the values: evaluating the view legitimately raises
             except Exception as e:  # noqa: BLE001
                 res.bad(f'view-read-raised:{type(P).__name__}.{a.prop}:{type(e).__name__}', f'after {what}: {e!r}')
                 break
